@@ -6,6 +6,8 @@ modes: 'bv' (ints exact; floats unsupported unless concrete -> uses 'fp' arithme
 Every obligation (verif_assert) becomes a query  pc /\\ not(cond); verif_reach records pc for the
 vacuity witness.  Unsupported constructs abort the path and are reported (never counted as success).
 """
+import os
+import sys
 import math
 import time
 from fractions import Fraction
@@ -340,6 +342,20 @@ class SymExec:
                 if t.bits < 8 * n:
                     e = z3.Extract(t.bits - 1, 0, e)
                 return concretize(z3.simplify(e))
+        if t.kind in ('float', 'ptr'):
+            # bytes written by memset / byte-wise copies: reassemble
+            parts = [self.byte_at(o, off + i) for i in range(n)]
+            if all(p_ is not None for p_ in parts):
+                if all(not is_sym(p_) for p_ in parts):
+                    bits = sum(p_ << (8 * i) for i, p_ in enumerate(parts))
+                    if t.kind == 'ptr':
+                        if bits == 0:
+                            return Ptr(0, 0)
+                    else:
+                        d = self.bits_to_fp(bits, 8 * n)
+                        return rlit(d) if self.mode == 'real' else d
+                elif t.kind == 'float' and self.mode != 'real':
+                    return self.bits_to_fp(z3.Concat(*[bv(p_, 8) for p_ in reversed(parts)]), 8 * n)
         covered = any(cc < off + n and off < cc + cn for cc, (cv, ck, cn) in o.cells.items())
         if covered:
             raise Unsupported('type-punned load of %s at %d in %s' % (t.s(), off, o.name))
@@ -517,9 +533,10 @@ class SymExec:
                     return a
                 if isinstance(a, XInf) and isinstance(b, XInf) and a.sign == b.sign:
                     return a
-                if isinstance(a, (XR, XInf)) or isinstance(b, (XR, XInf)):
+                if (isinstance(a, (XR, XInf)) or isinstance(b, (XR, XInf))) and not self.opts.get('xr_select'):
                     # merging a finite value with an infinity: fork instead (values stay plain reals or concrete infinities)
                     raise MergeFail()
+                # opts['xr_select']: keep a symbolic EXTENDED real (XR): supported by comparisons, min/max, select, negation and fabs only
                 return r_select(c, a, b)
             return z3.If(c, fpz3(a, t.bits), fpz3(b, t.bits))
         if t.kind == 'ptr':
@@ -670,8 +687,14 @@ class SymExec:
         st.next_fid = 1
         st.frames.append(fr)
         stack = [st]
+        prog = os.environ.get('VERIF_PROGRESS')
+        t_prog = time.time()
         while stack:
             st = stack.pop()
+            if prog and time.time() - t_prog > float(prog):
+                t_prog = time.time()
+                sys.stderr.write('[irsym] paths=%d stack=%d queries=%d fork_solver=%.1fs errors=%d\n' % (
+                    self.res.paths, len(stack), len(self.res.queries), self.res.fork_solver_time, len(self.res.errors)))
             if self.res.paths >= self.opts['max_paths']:
                 self.res.errors.append((st.path, 'path bound exceeded (%d)' % self.opts['max_paths']))
                 break
@@ -1467,7 +1490,7 @@ class SymExec:
                 return a
             if lt is False:
                 return b
-            if isinstance(a, (XR, XInf)) or isinstance(b, (XR, XInf)):
+            if (isinstance(a, (XR, XInf)) or isinstance(b, (XR, XInf))) and not self.opts.get('xr_select'):
                 raise Unsupported('min/max of a symbolic value with an infinity in real mode')
             return r_select(lt, a, b)
         if not is_sym(a) and not is_sym(b):
